@@ -9,43 +9,43 @@ def run(ctx):
                         "formats: JPEG and PNG (GIF in thorough); the composed placeholder is spliced at the format's manifest position by the harness"]
     r = tlc_expect_ok(tlc("MC_Embeddable", "MC_Embeddable.cfg", workers=4, timeout=600), "MC Embeddable")
     ctx.add_tlc(r)
-    cov = r.coverage()
-    for a in ("Placeholder", "SetExclusions", "UpdateHash", "SignEmbeddable"):
-        if cov.get(a, (0, 0))[1] == 0:
-            raise ToolError("vacuity: action %s never taken" % a)
+    if r.distinct < 1000:
+        raise ToolError("vacuity: Embeddable explored only %d states" % r.distinct)
     e = tlc_expect_ok(tlc("MC_Embeddable", "MC_Embeddable_emit.cfg", name="c15emit", workers=2, timeout=600, coverage=False), "emit")
     vecs = e.printed("VEC")
-    if len(vecs) != 192:
-        raise ToolError("expected 192 vectors, got %d" % len(vecs))
+    if len(vecs) != 1728:
+        raise ToolError("expected 1728 vectors, got %d" % len(vecs))
     if ctx.quick:
-        vecs = [v for v in vecs if v["n"] in (1, 2, 9, 10, 11, 12)]
+        one = [v for v in vecs if len(v["rounds"]) == 1 and v["rounds"][0]["n"] in (1, 2, 9, 10, 11, 12)]
+        two = [v for v in vecs if len(v["rounds"]) == 2]
+        ctx.rng.shuffle(two)
+        vecs = one + two[:120]
     fmts = "jpg,png" if ctx.quick else "jpg,png,gif"
     algs = "es256,ps256,ed25519" if ctx.quick else "es256,es384,es512,ps256,ps384,ps512,ed25519"
     p = vh(["c15-replay", "--formats", fmts, "--algs", algs], stdin="\n".join(json.dumps(v) for v in vecs), timeout=3000)
     recs = [json.loads(l) for l in p.stdout.splitlines() if l.strip()]
     drift = 0
     for x in recs:
-        o = x["obs"]
-        case = {"format": x["format"], "alg": x["alg"], "vector": x["vector"], "obs": o}
-        if o["sign"] == "Panic":
-            ctx.violation("panic", "embeddable workflow panicked: %s" % o.get("msg"), case)
-        elif o["sign"].startswith("SetupErr"):
-            ctx.violation("setup:%s" % o["sign"], "placeholder workflow failed before signing: %s" % o.get("msg"), case)
-        elif o["sign"] == "Ok":
-            if o["signed_len"] != o["placeholder_len"]:
-                ctx.violation("size:%s" % ("longer" if o["signed_len"] > o["placeholder_len"] else "shorter"),
-                              "sign_embeddable returned %d bytes for a %d-byte placeholder" % (o["signed_len"], o["placeholder_len"]), case)
-            elif o.get("read", {}).get("state") not in ("Valid", "Trusted"):
-                ctx.violation("patched-not-valid", "patched asset does not read back Valid: %s" % o.get("read"), case)
-            if x["vector"]["kind"] != "ok":
-                drift += 1
-        else:
-            if x["vector"]["kind"] == "ok":
-                drift += 1
+        for ri, o in enumerate(x["obs"]["rounds"]):
+            case = {"format": x["format"], "alg": x["alg"], "vector": x["vector"], "round": ri + 1, "obs": x["obs"]}
+            tag = "round%d" % (ri + 1)
+            if o["sign"] == "Panic":
+                ctx.violation("panic", "embeddable workflow panicked: %s" % o.get("msg"), case)
+            elif o["sign"].startswith("SetupErr"):
+                ctx.violation("setup:%s" % o["sign"], "placeholder workflow failed before signing: %s" % o.get("msg"), case)
+            elif o["sign"] == "Ok":
+                if o["signed_len"] != o["placeholder_len"]:
+                    ctx.violation("size:%s:%s" % ("longer" if o["signed_len"] > o["placeholder_len"] else "shorter", tag),
+                                  "sign_embeddable returned %d bytes for a %d-byte placeholder (%s)" % (o["signed_len"], o["placeholder_len"], tag), case)
+                elif o.get("read", {}).get("state") not in ("Valid", "Trusted"):
+                    ctx.violation("patched-not-valid:%s" % tag, "patched asset does not read back Valid: %s" % o.get("read"), case)
+        last = x["obs"]["rounds"][-1]["sign"] if x["obs"]["rounds"] else ""
+        if len(x["obs"]["rounds"]) == len(x["vector"]["rounds"]) and (last == "Ok") != (x["vector"]["kind"] == "ok"):
+            drift += 1
     if drift:
         ctx.drift_note("Embeddable", "%d vectors: fit/outgrow differs from the mirror's size arithmetic" % drift)
     ctx.cov["traces_validated_against_impl"] += len(recs)
     ctx.cov["evaluations"] = len(recs)
-    ctx.cov["distinct_nontrivial"] = sum(1 for x in recs if x["vector"]["n"] > 1)
-    ctx.cov["rule"] = "exclusion-list shapes exported by TLC (count x start magnitude x length magnitude) x formats %s x rotating algorithms; non-trivial = more than the manifest's own exclusion" % fmts
+    ctx.cov["distinct_nontrivial"] = sum(1 for x in recs if len(x["vector"]["rounds"]) > 1 or x["vector"]["rounds"][0]["n"] > 1)
+    ctx.cov["rule"] = "behaviours exported by TLC: one or two placeholder/sign rounds on the same builder, exclusion-list shapes (count x start magnitude x length magnitude) x formats %s x rotating algorithms; non-trivial = two rounds or more than the manifest's own exclusion" % fmts
     ctx.sample(recs[0]); ctx.sample(recs[-1])
